@@ -56,7 +56,7 @@ def _on_line(code, line):
         b = k.touch_rng.randrange(0, 3)
         k.touch_cuts += 1
     t.budget = b
-    if b <= 0:
+    if b <= 0 or k.lines >= k.max_lines:
         t.last_pos = (code.co_qualname, line)
         t.preempt()
 
